@@ -17,6 +17,12 @@ RULE = ("configuration cells = physical_dim x N x bc x order x dx (full product 
 BOUND = {"quick": "1-D N=2..9, 2-D NxN N=2..4, bc in {zero,periodic,neumann,backward,none}, order 0..2, dx in {1,0.5}",
          "thorough": "1-D N=2..40, 2-D NxN N=2..9, same options, 3 generic points per cell"}
 ASSUMPTIONS = [
+    "the Gaussian field is also constructed with the boundary conditions it does not document ('backward', 'none'): a refusal is "
+    "accepted, an accepted field must report rank / log-determinant / square root of the precision it has; other spellings of "
+    "a boundary-condition string (upper case, capitalised, trailing blank, an unknown word) must be refused or give the object "
+    "of the canonical spelling",
+    "a block of K column vectors handed to LMRF/CMRF logpdf (zero / scalar location) is refused or answered with the K "
+    "per-column values; the Gaussian field refuses blocks (a square block is accidentally broadcast) and is not judged there",
     "the 'backward' boundary rows are undocumented: rows are compared up to a per-row sign, D^T D exactly",
     "periodic stencils wider than the grid (order 2, N=2) are outside the documented range and skipped",
     "regularised (sqrt(eps)) Cholesky factors of singular precisions are compared at 1e-5 relative",
@@ -289,8 +295,11 @@ def eval_cell(cell):
     # ---- 3. the priors ---------------------------------------------------------------------
     pts = _points(dim, k, cell["npts"])
     loc = refs.dyadic_vec(dim, k + 2, scale=0.125)
-    if bc in ("zero", "periodic", "neumann"):
-        _check_gmrf(res, cell, facet, Pref, ld_ref, rank_ref, pts, loc)
+    # the Gaussian field documents zero / periodic / neumann only: with the other boundary conditions the operators accept
+    # ('backward', 'none') it must refuse, or report the rank / log-determinant / square root of the precision it then has
+    _check_gmrf(res, cell, facet, Pref, ld_ref, rank_ref, pts, loc)
+    if cell["dx"] == 1.0 and N <= 3:
+        _check_bc_spellings(res, cell, facet)
     if order == 1:
         _check_lmrf_cmrf(res, cell, facet, Dref, pts, loc)
     return res
@@ -428,6 +437,61 @@ def _check_lmrf_cmrf(res, cell, facet, Dref, pts, loc):
                     res.fail("C20|%s|logpdf|%s,loc=%s" % (fam, facet, loc_kind),
                              "logpdf %r != sum of documented %s log-densities of D(x-loc) = %r" % (v, fam[0], ref), x=x)
                     break
+            if loc_kind != "vector":       # (a vector location does not broadcast against a block in a defined way)
+                _check_block(res, d, fam, facet + ",loc=%s" % loc_kind, pts)
             res.evaluations += 1
             res.traces += 1
             res.outcomes.add("%s:%s" % (fam, loc_kind))
+
+
+def _check_block(res, d, fam, facet, pts):
+    """A block of K column vectors handed to logpdf: refused, or one number per column, each that column's own value."""
+    X = np.column_stack(pts[-3:]) if len(pts) >= 3 else None
+    if X is None or X.shape[1] < 2:
+        return
+    res.transitions += 1
+    try:
+        single = [float(np.asarray(d.logpdf(X[:, i])).ravel()[0]) for i in range(X.shape[1])]
+        b = np.asarray(d.logpdf(X), dtype=float).ravel()
+    except Exception as e:
+        res.refused += 1
+        res.outcomes.add("%s:block-refused:%s" % (fam, type(e).__name__))
+        return
+    if b.size != X.shape[1] or not close(b, np.array(single), 1e-9):
+        res.fail("C20|%s|logpdf-block|%s" % (fam, facet.split(",loc=")[0].split(",order")[0]),
+                 "logpdf of a block of %d column vectors returned %s: neither a refusal nor the per-column values %s"
+                 % (X.shape[1], b[:4], np.array(single)))
+    else:
+        res.outcomes.add("%s:block-per-column" % fam)
+
+
+def _check_bc_spellings(res, cell, facet):
+    """Boundary-condition strings in other spellings: refused, or the same object as the canonical spelling gives."""
+    import cuqi
+    pd, N, bc, order = cell["pd"], cell["N"], cell["bc"], cell["order"]
+    dim = N if pd == 1 else N * N
+    x = refs.dyadic_vec(dim, cell["cat"] + 1)
+    for fam in ("GMRF", "LMRF", "CMRF"):
+        if fam != "GMRF" and order != 1:
+            continue
+
+        def build(b):
+            if fam == "GMRF":
+                return cuqi.distribution.GMRF(np.zeros(dim), 2.0, bc_type=b, order=order, geometry=_geom(pd, N))
+            return getattr(cuqi.distribution, fam)(np.zeros(dim), 0.5, bc_type=b, geometry=_geom(pd, N))
+        try:
+            ref = float(np.asarray(build(bc).logpdf(x)).ravel()[0])
+        except Exception:
+            ref = None
+        for sp in (bc.upper(), bc.capitalize(), bc + " ", "dirichlet"):
+            res.transitions += 1
+            try:
+                v = float(np.asarray(build(sp).logpdf(x)).ravel()[0])
+            except Exception as e:
+                res.refused += 1
+                res.outcomes.add("%s:bc-spelling-refused" % fam)
+                continue
+            canonical = sp.strip().lower() == bc
+            if ref is None or not canonical or not ((np.isnan(v) and np.isnan(ref)) or close(v, ref, 1e-9)):
+                res.fail("C20|%s|bc-spelling|%s" % (fam, "bc=%s" % bc), "bc_type=%r is accepted (logpdf %r) but bc_type=%r %s"
+                         % (sp, v, bc, "is refused" if ref is None else "gives %r" % ref))
